@@ -49,7 +49,7 @@ func init() {
 			"levels (any distance when coarser); extended and single-zoom API plus HorizontalZoom/HorizontalZoomMinMax/VerticalZoom per axis. Oracle: descendants (finer) / floor ancestor (coarser) per axis, " +
 			"union over inputs, compared as sets; len == |set|; region(result) >= region(input), equal when refining. Non-trivial = some axis of some input changes zoom; distinct by (list, targets).",
 		Assume: []string{"reference: x>>d, y>>d, f>>d (arithmetic shift = floor) and [i<<d, (i+1)<<d)", "zoom-in bounded to 3 levels per axis (4^3*2^3 IDs per input) for cost"},
-		N:      func(t string) int64 { return c03Directed(t) + tierN(100_000, 3_000_000)(t) },
+		N:      func(t string) int64 { return c03Directed(t) + tierN(150_000, 3_000_000)(t) },
 		Floor:  tierN(1000, 10000),
 		Run:    runC03,
 		Exhaustive: func(t string) []string {
